@@ -2,7 +2,7 @@
     Only statements live here; each is closed by [exact] of a lemma proved elsewhere. *)
 From Coq Require Import List ZArith Sorted.
 From Coq Require String.
-From V Require Import Gen.Params PktProt.PktNum PktProt.PktNumProofs PktProt.KeyPhase PktProt.KeyPhaseProofs PktProt.KeyDerive PktProt.KeyDeriveProofs PktProt.KeyPhaseRun PktProt.KeyPhaseWindow PktProt.KeyPhaseSys PktProt.KeyPhaseSysProofs PktProt.KeyPhaseExamples PktProt.Sha256 PktProt.InitialKeys PktProt.InitialKeysProofs PktProt.Aes PktProt.InitialProtect PktProt.InitialProtectExamples PktProt.Retry PktProt.RetryProofs PktProt.AesProofs Lib.Hex PktProt.Protect PktProt.ProtectProofs PktProt.ProtectExamples.
+From V Require Import Gen.Params PktProt.PktNum PktProt.PktNumProofs PktProt.KeyPhase PktProt.KeyPhaseProofs PktProt.KeyDerive PktProt.KeyDeriveProofs PktProt.KeyPhaseRun PktProt.KeyPhaseWindow PktProt.KeyPhaseSys PktProt.KeyPhaseSysProofs PktProt.KeyPhaseExamples PktProt.Sha256 PktProt.InitialKeys PktProt.InitialKeysProofs PktProt.Aes PktProt.InitialProtect PktProt.InitialProtectExamples PktProt.Retry PktProt.RetryProofs PktProt.AesProofs PktProt.ChaCha PktProt.ChaChaExamples Lib.Hex PktProt.Protect PktProt.ProtectProofs PktProt.ProtectExamples PktProt.ProtectPack PktProt.ProtectPackProofs Wire.Varint Wire.VarintProofs Wire.Headers Wire.HeadersProofs PktProt.ProtectLong PktProt.ProtectLongProofs.
 Import ListNotations.
 Open Scope Z_scope.
 
@@ -142,6 +142,72 @@ Theorem C05_first_byte_layout :
   (forall ptype pnLen, (1 <= pnLen <= 4)%nat -> 0 <= ptype <= 3 -> wf_first true (long_first ptype pnLen) pnLen 0).
 Proof. exact (conj short_first_wf long_first_wf). Qed.
 Print Assumptions C05_first_byte_layout.
+
+(** (a)+(g) Packer -> unpacker.  The packet the packer builds — packet number length chosen by
+    PacketNumberLengthForHeader from the sender's largest acknowledged number (as
+    sentPacketHandler.PeekPacketNumber does), payload = ACK | padding | frames with the padding
+    appendShortHeaderPacket / appendLongHeaderPacket add so that packet number + payload are at
+    least 4 bytes (any extra padding on top), first byte as AppendShortHeader / ExtendedHeader.Append
+    write it, encryptPacket — is opened by the unpacker to exactly the packet number, its length,
+    the key phase bit and that payload: for both header forms, every packet number below 2^62,
+    every receiver state between the largest acknowledged and the packet itself (fewer than
+    2^31 outstanding), every non-empty ACK/frame content however short.  The chosen length is
+    2..4 and packet number + padded payload always reach the 4 bytes the sample needs. *)
+Theorem C05_pack_unpack :
+  forall (aead_seal : Z -> Z -> list Z -> list Z -> list Z)
+         (aead_open : Z -> Z -> list Z -> list Z -> option (list Z))
+         (hp_mask : list Z -> list Z),
+    (forall pn kp ad p, aead_open pn kp ad (aead_seal pn kp ad p) = Some p) ->
+    (forall pn kp ad p, length (aead_seal pn kp ad p) = (length p + 16)%nat) ->
+    forall (long : bool) (tcode kp : Z) (mid : list Z) (pn la largest : Z) (ack frames : list Z) (extra : nat),
+      (if long then 0 <= tcode <= 3 else kp = 0 \/ kp = 1) ->
+      0 <= pn < 2 ^ 62 -> -1 <= la -> la <= largest <= pn -> pn - la <= 2 ^ 31 ->
+      ack ++ frames <> [] ->
+      let pnLen := lenForHeader pn la in
+      let padding := pad_len (Z.to_nat pnLen) (length ack + length frames) extra in
+      2 <= pnLen <= 4 /\
+      (4 <= Z.to_nat pnLen + length (packet_payload ack padding frames))%nat /\
+      unprotect aead_open hp_mask long (1 + length mid) largest
+        (pack aead_seal hp_mask long tcode kp mid pn la ack frames extra)
+      = UOk (pack_first long tcode kp (Z.to_nat pnLen)) pn pnLen (if long then 0 else kp)
+            (packet_payload ack padding frames).
+Proof. exact pack_unpack. Qed.
+Print Assumptions C05_pack_unpack.
+
+(** (a) at the datagram level, long headers: getLongHeader + ExtendedHeader.Append (the wire
+    unit's header codec, property C08, imported read-only) + appendLongHeaderPacket +
+    encryptPacket on the sending side; wire.ParsePacket + UnpackLongHeader on the receiving side.
+    For every supported version, packet type with a packet number, connection IDs up to 20
+    bytes, token, packet number / largest acknowledged / receiver state as in C05_pack_unpack,
+    ACK and frame bytes, extra padding, Length fitting the 2-byte field, and ANY bytes
+    coalesced behind the packet: ParsePacket reads the header fields the packer was given
+    (header protection does not disturb what it looks at), cuts out exactly the packet and
+    returns the rest, and the unpacker opens the packet to the packet number, its length and
+    the padded payload.  Extra hypothesis: the mask function returns bytes. *)
+Theorem C05_long_datagram_roundtrip :
+  forall (aead_seal : Z -> Z -> list Z -> list Z -> list Z)
+         (aead_open : Z -> Z -> list Z -> list Z -> option (list Z))
+         (hp_mask : list Z -> list Z),
+    (forall pn kp ad p, aead_open pn kp ad (aead_seal pn kp ad p) = Some p) ->
+    (forall pn kp ad p, length (aead_seal pn kp ad p) = (length p + 16)%nat) ->
+    (forall s, Forall is_byte (hp_mask s)) ->
+    forall (ty v : Z) (src dst tok : list Z) (pn la largest : Z) (ack frames : list Z) (extra : nat) (rest : list Z),
+      valid_version v -> pn_type ty ->
+      zlen dst <= W_MaxConnIDLen -> zlen src <= W_MaxConnIDLen -> zlen tok <= maxVarInt8 ->
+      0 <= pn < 2 ^ 62 -> -1 <= la -> la <= largest <= pn -> pn - la <= 2 ^ 31 ->
+      ack ++ frames <> [] ->
+      let pnLen := lenForHeader pn la in
+      let payload := packet_payload ack (pad_len (Z.to_nat pnLen) (length ack + length frames) extra) frames in
+      pnLen + zlen payload + 16 <= maxVarInt2 ->
+      exists pkt h,
+        pack_long_datagram aead_seal hp_mask ty v src dst tok pn la ack frames extra = Some pkt /\
+        unpack_long_datagram aead_open hp_mask largest (pkt ++ rest) =
+          inr (h, UOk (192 + 16 * type_code v ty + (pnLen - 1)) pn pnLen 0 payload, rest) /\
+        hType h = ty /\ hVersion h = v /\ hSrc h = src /\ hDst h = dst /\
+        hToken h = (if ty =? H_PacketTypeInitial then tok else []) /\
+        hLength h = pnLen + zlen payload + 16.
+Proof. exact long_datagram. Qed.
+Print Assumptions C05_long_datagram_roundtrip.
 
 (** (d) Any modification is rejected rather than yielding different plaintext: under ideal
     integrity of the AEAD (whatever opens was sealed by the honest sender — predicate
@@ -337,3 +403,20 @@ Theorem C05_initial_protect_roundtrip :
     = UOk first pn (Z.of_nat pnLen) 0 payload.
 Proof. exact initial_roundtrip. Qed.
 Print Assumptions C05_initial_protect_roundtrip.
+
+(** RFC 9001 Appendix A.5 (ChaCha20-Poly1305 short header packet): key, IV, header-protection
+    key and next-generation ("quic ku") secret from the traffic secret, the ChaCha20
+    header-protection mask for the sample, the protected packet bit for bit, and its opening —
+    with ChaCha20, Poly1305 and HKDF written in Gallina, through the byte-level Protect model. *)
+Example C05_rfc9001_A5_chacha :
+  a5_key = hx "c6d98ff3441c3fe1b2182094f69caa2ed4b716b65488960a7a984979fb23e1c8" /\
+  a5_iv = hx "e0459b3474bdd0e44a41c144" /\
+  a5_hp = hx "25a282b9e82f06f21f488917a4fc8f1b73573685608597d0efcb076b0ab7a7a4" /\
+  expand_label a5_secret "quic ku" 32 = hx "1223504755036d556342ee9361d253421a826c9ecdf3c7148684b36b714881f9" /\
+  chacha_mask a5_hp (hx "5e5cd55c41f69080575d7999c25a5bfb") = hx "aefefe7d03" /\
+  protect a5_seal (chacha_mask a5_hp) false (hx "4200bff4") (hx "01") 654360564 0 3
+    = hx "4cfe4189655e5cd55c41f69080575d7999c25a5bfb" /\
+  unprotect a5_open (chacha_mask a5_hp) false 1 654360563 (hx "4cfe4189655e5cd55c41f69080575d7999c25a5bfb")
+    = UOk 66 654360564 3 0 (hx "01").
+Proof. exact rfc9001_A5. Qed.
+Print Assumptions C05_rfc9001_A5_chacha.
